@@ -209,7 +209,9 @@ func Sanitize(p *fqlast.Program) {
 var StringPool = []string{"", "a", "ab", "10", "-3", "x y", "é", "é", "A", "abc", "7", "return", "RETURN 1", "for", "and", "not",
 	"日本語", "😀", "a'b", `a"b`, "tab\there", "line\nbreak", "ıſ", "İstanbul", " ", " x", "/* c */", "// x", "´", "`q`", "ß", "Ǆ",
 	"ạ̈", "null", "TRUE", "@p", "x::y", "1..2", "\U0001F468‍\U0001F469‍\U0001F467",
-	"cr\r\nlf", "a\rb", "\r\n", "x\u2028y", "x\u0085y", "two  spaces", "two spaces", "two\tspaces", "two\nspaces", "tab\t\ttab", "tab\ttab", "\n"}
+	"cr\r\nlf", "a\rb", "\r\n", "x\u2028y", "x\u0085y", "two  spaces", "two spaces", "two\tspaces", "two\nspaces", "tab\t\ttab", "tab\ttab", "\n",
+	// supplementary-plane characters whose low 16 bits are a quote, a backslash, a line feed or a comment delimiter
+	"a\U00020022b", "a\U00020027b", "a\U00020060b", "a\U0002005Cb", "a\U0002000Ab", "\U0002002A\U0002002F", "\U000200B4"}
 
 var quoteChars = []string{`"`, `'`, "`", "´"}
 
